@@ -7,6 +7,7 @@
 // to, the function it denotes, the registry of forests, the operations still registered,
 // the live compute-table entries grouped by the forests their entry type mentions.
 #include "common.h"
+#include <malloc.h>
 #include "ct_entry_type.h"
 #include "compute_table.h"
 #include <sstream>
@@ -88,6 +89,9 @@ bool ctClearHazard(const forest* F) {
     }
     return false;
 }
+
+// steer around F-C17-3 until its probe (probeCtClearAfterDestroy) shows that the library survives the call
+bool steerCtClear = true;
 
 // ------------------------------------------------------------------ observations
 void observe(World& W) {
@@ -482,7 +486,7 @@ struct Gen {
         }
     }
     void doCtClear(FRec& f) {
-        if (ctClearHazard(f.F)) {
+        if (steerCtClear && ctClearHazard(f.F)) {
             // the call would be a use-after-free in the unchanged library (finding F-C17-3, probed
             // separately): evaluate something instead
             STATS.hit("step.ctclear.avoided-hazard");
@@ -815,7 +819,10 @@ void probeReinitOpStyle() {
     else emit("probe reinit-opstyle abort");
 }
 
-// F-C17-3 (see ctClearHazard): the smallest history, in a child process.
+// F-C17-3 (see ctClearHazard): the smallest history, in a child process.  The defect is a use-after-free (the
+// table deleted from inside its own removeAll() loop), which a plain build survives by luck: the child asks
+// glibc to overwrite freed memory (M_PERTURB) so that the stale loop reads garbage and dies; the sanitizer
+// flavour aborts by itself.  While the probe fails, the generator replaces the hazardous `ctclear` steps.
 void probeCtClearAfterDestroy() {
     fflush(stdout);
     pid_t pid = fork();
@@ -824,6 +831,7 @@ void probeCtClearAfterDestroy() {
         (void) devnull;
         int rc = 13;
         try {
+            mallopt(M_PERTURB, 0xA5);
             CTConf ct; ct.style = 2; ct.stale = 0; ct.maxSize = 1024;
             libInit(&ct);
             int b[1] = {2};
@@ -836,14 +844,19 @@ void probeCtClearAfterDestroy() {
             forest::destroy(f1);                    // kills COPY(f1,f3); its entry type keeps the entries
             bool hazard = ctClearHazard(f3);
             f3->removeAllComputeTableEntries();
-            rc = hazard ? 15 : 10;
+            // the forest must still be usable, and the hazard gone
+            dd_edge c2(f3);
+            f3->createEdgeForVar(1, false, c2);
+            apply(UNION, c, c2, c2);
+            rc = !hazard ? 16 : (ctClearHazard(f3) ? 15 : 10);
         } catch (error&) { rc = 12; }
         _exit(rc);
     }
     int status = 0;
     if (pid < 0 || waitpid(pid, &status, 0) < 0) { emit("probe ctclear-after-destroy unavailable"); return; }
     if (WIFSIGNALED(status)) emit("probe ctclear-after-destroy signal");
-    else if (WEXITSTATUS(status) == 10) emit("probe ctclear-after-destroy ok");
+    else if (WEXITSTATUS(status) == 10) { emit("probe ctclear-after-destroy ok"); steerCtClear = false; }
+    else if (WEXITSTATUS(status) == 16) emit("probe ctclear-after-destroy nohazard");
     else if (WEXITSTATUS(status) == 15) emit("probe ctclear-after-destroy hazard");
     else if (WEXITSTATUS(status) == 12) emit("probe ctclear-after-destroy error");
     else emit("probe ctclear-after-destroy abort");
